@@ -65,7 +65,7 @@ def quoted_user_text_removed(msg, source=None):
     anything else inside quotes was produced by the interpreter and stays subject to the test."""
     def drop(m):
         inner = m.group(0)[1:-1]
-        if source is None or inner in source or inner.replace("\\n", "\n") in source:
+        if source is None or inner in source or inner.replace("\\n", "\n") in source or inner.replace("\n", "\\n") in source:
             return m.group(0)[0] * 2
         return " " + inner + " "
     msg = re.sub(r"'[^']*'", drop, msg)
